@@ -173,6 +173,7 @@ impl File {
             })
             .collect::<Vec<_>>();
 
+        let signal_names: HashSet<String> = signals.iter().map(|s| s.name.clone()).collect();
         let mut test_signal_names: HashSet<String> = HashSet::new();
         let mut bidirectional: HashSet<String> = HashSet::new();
         for test_case in &test_cases {
@@ -181,16 +182,17 @@ impl File {
                 .map(|(signals, _)| signals)
                 .map_err(|_| DigFileErrorKind::EmptyTest)?
             {
-                if let Some(stripped_name) = name.strip_suffix("_out") {
-                    let stripped_name = stripped_name.to_string();
-                    bidirectional.insert(stripped_name);
-                } else {
-                    test_signal_names.insert(name);
+                match name.strip_suffix("_out") {
+                    // A pin which is itself labelled `<name>_out` is just an ordinary signal
+                    Some(stripped_name) if !signal_names.contains(&name) => {
+                        bidirectional.insert(stripped_name.to_string());
+                    }
+                    _ => {
+                        test_signal_names.insert(name);
+                    }
                 }
             }
         }
-
-        let signal_names: HashSet<String> = signals.iter().map(|s| s.name.clone()).collect();
 
         if !test_signal_names.is_subset(&signal_names) {
             let missing = test_signal_names
@@ -203,15 +205,12 @@ impl File {
 
         let mut signals = signals;
         for name in bidirectional {
-            let sig = signals
-                .iter_mut()
-                .find(|sig| sig.name == name)
-                .expect("We already checked that all test signals appear in the circuit");
-            let dir = std::mem::replace(&mut sig.typ, SignalType::Output);
-            let SignalType::Input { default } = dir else {
-                unreachable!(
-                    "By definition we know that there will be an input signal called {name}"
-                );
+            // Only an input can be turned into a bidirectional signal
+            let Some((sig, default)) = signals.iter_mut().find_map(|sig| match sig.typ {
+                SignalType::Input { default } if sig.name == name => Some((sig, default)),
+                _ => None,
+            }) else {
+                return Err(DigFileErrorKind::MissingSignals(name + "_out").into());
             };
             sig.typ = SignalType::Bidirectional { default };
         }
